@@ -24,7 +24,10 @@ type SpecEnv struct {
 	bound   map[string]Val
 	pkg     *ssa.Package
 	lets    map[string]ast.Expr
-	pol     int // +1: goal position (forall may be skolemised); -1: assumption position; 0: neither
+	// ghost resolves names of callee locals used in ensures clauses (final values in the
+	// callee, fresh existential witnesses at call sites)
+	ghost func(name string) (Val, bool)
+	pol   int // +1: goal position (forall may be skolemised); -1: assumption position; 0: neither
 }
 
 // goal evaluates a clause that is to be proved.
@@ -52,7 +55,7 @@ func (e *SpecEnv) withPol(p int) *SpecEnv {
 // extra bindings.
 func (fc *fnCtx) specEnv(st *State, extra map[string]Val) *SpecEnv {
 	t := fc.top
-	env := &SpecEnv{fc: fc, st: st, old: t.entry, vars: map[string]Val{}, oldVars: t.params, bound: map[string]Val{}, pkg: fc.fn.Package()}
+	env := &SpecEnv{fc: fc, st: st, old: t.entry, vars: map[string]Val{}, oldVars: t.params, bound: map[string]Val{}, pkg: fc.fn.Package(), lets: letsOf(fc.contract)}
 	// locals (cells) by source name; later declarations shadow earlier ones only if live
 	cellSet := map[*ssa.Alloc]bool{}
 	for a := range st.cells {
@@ -114,6 +117,17 @@ func cellStoredIn(a *ssa.Alloc, li *loopInfo) bool {
 		}
 	}
 	return false
+}
+
+func letsOf(c *Contract) map[string]ast.Expr {
+	if c == nil || len(c.Lets) == 0 {
+		return nil
+	}
+	m := map[string]ast.Expr{}
+	for _, l := range c.Lets {
+		m[l.Name] = l.Expr
+	}
+	return m
 }
 
 func (e *SpecEnv) with(st *State) *SpecEnv {
@@ -234,6 +248,19 @@ func (e *SpecEnv) eval(x ast.Expr) (Val, error) {
 		return e.evalSliceExpr(n)
 	case *ast.CompositeLit:
 		return e.evalComposite(n)
+	case *ast.TypeAssertExpr:
+		v, err := e.eval(n.X)
+		if err != nil {
+			return Val{}, err
+		}
+		t := e.resolveType(n.Type)
+		if t == nil || v.Ty == nil || !isInterface(v.Ty) {
+			return Val{}, fmt.Errorf("bad type assertion in specification")
+		}
+		if isInterface(t) {
+			return Val{T: v.T, Ty: t}, nil
+		}
+		return Val{T: e.fc.unboxIface(v.T, t), Ty: t}, nil
 	}
 	return Val{}, fmt.Errorf("unsupported expression %T", x)
 }
@@ -317,6 +344,11 @@ func (e *SpecEnv) evalIdent(name string) (Val, error) {
 	}
 	if v, ok := e.vars[name]; ok {
 		return v, nil
+	}
+	if e.ghost != nil {
+		if v, ok := e.ghost(name); ok {
+			return v, nil
+		}
 	}
 	if e.pkg != nil {
 		if obj := e.pkg.Pkg.Scope().Lookup(name); obj != nil {
@@ -910,6 +942,12 @@ func (e *SpecEnv) evalCall(n *ast.CallExpr) (Val, error) {
 			return e.convert(n.Args[0], t)
 		}
 	}
+	// pure interface method: same uninterpreted function as at code call sites
+	if sel, ok := n.Fun.(*ast.SelectorExpr); ok {
+		if v, done, err := e.ifaceCall(sel, n.Args); done {
+			return v, err
+		}
+	}
 	// function or method call: inline
 	fn, recv, err := e.resolveCallee(n.Fun)
 	if err != nil {
@@ -1067,7 +1105,6 @@ func lookupMethodAnyPkg(t types.Type, name string) *types.Func {
 	return nil
 }
 
-
 // quantPatterns picks E-matching patterns for a quantifier over bound variable bn:
 // every application (sl.ix S bn), (s.ix S bn) or (select A bn) occurring in body
 // whose other argument does not mention a bound variable. Each is an alternative.
@@ -1134,4 +1171,53 @@ func skipSexp(s string, i int) int {
 		}
 	}
 	return -1
+}
+
+// ifaceCall handles x.M(args) where x has interface type and M has an assumed pure
+// interface contract: the result is the uninterpreted function used at code call sites.
+func (e *SpecEnv) ifaceCall(sel *ast.SelectorExpr, argx []ast.Expr) (Val, bool, error) {
+	if id, ok := sel.X.(*ast.Ident); ok {
+		_, isVar := e.vars[id.Name]
+		_, isBound := e.bound[id.Name]
+		_, isLet := e.lets[id.Name]
+		if !isVar && !isBound && !isLet && e.ghost == nil && e.importedPkg(id.Name) != nil {
+			return Val{}, false, nil
+		}
+		if !isVar && !isBound && !isLet && e.importedPkg(id.Name) != nil {
+			if _, ok := e.ghost(id.Name); !ok {
+				return Val{}, false, nil
+			}
+		}
+	}
+	recv, err := e.eval(sel.X)
+	if err != nil || recv.Ty == nil || !isInterface(recv.Ty) {
+		return Val{}, false, nil
+	}
+	it := recv.Ty.Underlying().(*types.Interface)
+	var m *types.Func
+	for i := 0; i < it.NumMethods(); i++ {
+		if it.Method(i).Name() == sel.Sel.Name {
+			m = it.Method(i)
+		}
+	}
+	if m == nil {
+		return Val{}, true, fmt.Errorf("no method %s on %s", sel.Sel.Name, recv.Ty)
+	}
+	c := e.fc.eng.ifaceContract(recv.Ty, m.Name())
+	if c == nil || !c.Pure {
+		return Val{}, true, fmt.Errorf("interface method %s.%s has no pure contract", typeKey(recv.Ty), m.Name())
+	}
+	sig := m.Type().(*types.Signature)
+	if sig.Results().Len() != 1 {
+		return Val{}, true, fmt.Errorf("interface method %s must have one result", m.Name())
+	}
+	var args []Val
+	for i, a := range argx {
+		v, err := e.eval(a)
+		if err != nil {
+			return Val{}, true, err
+		}
+		args = append(args, e.coerce(v, sig.Params().At(i).Type()))
+	}
+	return e.fc.ifaceApp(recv, m.Name(), args, sig.Results().At(0).Type()), true, nil
 }
